@@ -41,6 +41,8 @@ case "$VARIANT" in
   cpu-*) CONF+=(--build=${VARIANT#cpu-}-unknown-linux-gnu) ;;
   *) echo "unknown variant $VARIANT" >&2; exit 2 ;;
 esac
+# configure runs test programs: a sanitizer that cannot start its leak checker (ptrace-restricted sandboxes) must not make them fail
+export ASAN_OPTIONS=detect_leaks=0 TSAN_OPTIONS=report_bugs=0
 if [ ! -x ./configure ] || [ configure.ac -nt configure ]; then autoreconf -i >/dev/null 2>&1 || true; fi
 ./configure "${CONF[@]}" CC=$CCX CXX=$CXXX CFLAGS="$CF" CXXFLAGS="$CF" > configure.out 2>&1 || { tail -30 configure.out >&2; exit 2; }
 # mpir.h and longlong.h in /repo are configure outputs that the in-tree `make check` uses as they are.
